@@ -3,9 +3,13 @@
 (* matters), every query: the back-ends' exact answers against the set-theoretic   *)
 (* definition, merged = union, the two-row distance = the recursive definition,    *)
 (* and the mutable back-end's fuzzy search is sound and complete.                  *)
+(* DedupByConcat = TRUE is a deviation a seeded change introduced: add_dictionary      *)
+(* skips a child whose hash is already present, and the hash runs over the words'       *)
+(* characters with nothing between them - {a, b} and {ab} collide and the second is     *)
+(* dropped.                                                                             *)
 EXTENDS DictOps
 
-CONSTANTS Chars, MaxWord, MaxDict, MaxBound
+CONSTANTS Chars, MaxWord, MaxDict, MaxBound, DedupByConcat
 
 VARIABLES ws, phase
 dvars == <<ws, phase>>
@@ -31,8 +35,11 @@ BackendsAgree == phase = "query" /\ ~HasIdClash(ws) =>
                       /\ FstCanon(ws, q) = MutCanon(ws, q)
 BackendsAgreeOnMembership == phase = "query" => \A q \in Queries : FstContains(ws, q) = MutContains(ws, q)
 \* merged = union of its parts, for every split of the list into two children
+RECURSIVE ConcatAll(_)
+ConcatAll(c) == IF c = <<>> THEN <<>> ELSE Head(c) \o ConcatAll(Tail(c))
+SecondChild(c1, c2) == IF DedupByConcat /\ c1 # <<>> /\ ConcatAll(c1) = ConcatAll(c2) THEN <<>> ELSE c2
 MergedIsUnion == phase = "query" =>
-   \A k \in 0..Len(ws) : LET c1 == SubSeq(ws, 1, k) c2 == SubSeq(ws, k + 1, Len(ws)) IN
+   \A k \in 0..Len(ws) : LET c1 == SubSeq(ws, 1, k) c2 == SecondChild(SubSeq(ws, 1, k), SubSeq(ws, k + 1, Len(ws))) IN
      \A q \in Queries : /\ MergedContains(c1, c2, q) = (MutContains(c1, q) \/ MutContains(c2, q))
                         /\ (~HasIdClash(ws) => MergedContains(c1, c2, q) = MutContains(ws, q))
                         /\ (~HasIdClash(ws) => MergedExact(c1, c2, q) = MutExact(ws, q))
